@@ -19,6 +19,7 @@ def run(chk, replay=None):
                        "non-trivial = lane of a verbose or file-writing mode")
     chk.model("MC_Session", "MC_Session_thorough" if thorough else "MC_Session", workers=8,
               what="MC_Session: ModeNonInterference (two session copies differing only in mode stay equal in every reachable state)")
+    chk.model("MC_Summary", what="MC_Summary: structure of the weight summary (minimal channels, listed channels, elision, maximum) is well-formed for all small and many-channel patterns")
     exe = vt.build(*BUILDS[0][0], **BUILDS[0][1])
     trace = replay or chk.path("trace.ndjson")
     if not replay:
@@ -28,19 +29,21 @@ def run(chk, replay=None):
         shutil.rmtree(scratch, ignore_errors=True)
     rows = vt.read_ndjson(trace)
     chk.cov["evaluations"] = len(rows)
-    for r in rows:
+    for k, r in enumerate(rows):
+        if r["e"] == "Summary" and len(r["w"]) >= 5:
+            chk.nontrivial(("s", k))
         if r["e"] == "Lane" and r["mode"] != 0:
             chk.nontrivial((r["run"], r["mode"]))
-    chk.sample(rows[0])
+    chk.sample_each(rows, ("Summary", "Lane"))
     chk.sample(next((r for r in rows if r.get("kind") == "mc" and r["mode"] == 3), rows[-1]))
-    ok, matched, res = chk.validate("Trace_C20", trace, need_actions=("Lane",))
+    ok, matched, res = chk.validate("Trace_C20", trace, need_actions=("Lane", "Summary"))
     if not ok:
         bad = rows[matched] if matched < len(rows) else None
         chk.violation("C20:modes", trace, "lane %d rejected by Trace_C20: %s" % (matched + 1, str(bad)[:700]))
     if thorough and ok and not replay:
         import copy
         bad = copy.deepcopy(rows)
-        i = next(k for k, e in enumerate(bad) if e["mode"] == 2 and e["texts"])
+        i = next(k for k, e in enumerate(bad) if e["e"] == "Lane" and e["mode"] == 2 and e["texts"])
         bad[i]["texts"][-1] += 100000
         p = chk.path("selftest.ndjson")
         vt.write_ndjson(p, bad)
